@@ -271,6 +271,13 @@ class GridRow:
         self.grid, self.row = grid, row
 
 
+class ExtV:
+    """Extended real read from a cost table: inf tells float('inf').  Lives only inside one
+    expression (sums and comparisons); every other use requires the entry to be finite."""
+    def __init__(self, inf, val):
+        self.inf, self.val = inf, val
+
+
 class RangeV:
     def __init__(self, lo, hi, step=1):
         self.lo, self.hi, self.step = lo, hi, step
